@@ -103,9 +103,10 @@ fn main() {
         "selftest" => props::selftest(),
         "gen-fixtures" => {
             let p = props::c06::fixtures_path();
-            match std::fs::write(&p, props::c06::fixtures_source()) {
+            let p2 = verif_root().join("harness/samples/src/lib.rs");
+            match std::fs::write(&p, props::c06::fixtures_source()).and_then(|_| std::fs::write(&p2, gen::samples_source())) {
                 Ok(()) => {
-                    outln!("wrote {}", p.display());
+                    outln!("wrote {} and {}", p.display(), p2.display());
                     0
                 }
                 Err(e) => {
